@@ -1823,13 +1823,17 @@ def text_view(case, mod, text, spec_by_name, targets, runtime, parsed_ok, sigs=N
         for n, f in cls.get_all_fields_by_name().items():
             if n in cls._constants:
                 continue
-            a = fty_of_field(f, vars(mod), get_type_info)
+            try:
+                a = fty_of_field(f, vars(mod), get_type_info)
+            except Exception as e:      # typedpy-internal API moved: no per-class tie for this class (tagged), no alarm
+                a, bad = None, f"{n}: get_type_info raised {type(e).__name__}: {e}"[:200]
+                break
             if a is None:
-                bad = f"{n}: {get_type_info(f, vars(mod), set())!r}"
+                bad = f"{n}: annotation outside the modelled language"
                 break
             anns.append([n, a])
         if bad:
-            py["skipped"][name] = "annotation outside the modelled language: " + bad
+            py["skipped"][name] = bad
             continue
         entry = {"i": ti, "anns": anns}
         one = lambda mn: seg(meths[mn][0]) if len(meths.get(mn, [])) == 1 else None
